@@ -20,9 +20,9 @@ var VerifHooks struct {
 	Yield func(site string)
 	// PoolGet replaces sync.Pool.Get for the router's context pool: it returns a context
 	// the simulator chooses to reuse, or newFn() for a fresh one.
-	PoolGet func(newFn func() any) any
-	// PoolPut replaces sync.Pool.Put for the router's context pool.
-	PoolPut func(x any)
+	PoolGet func(pool any, newFn func() any) any
+	// PoolPut replaces sync.Pool.Put for the router's context pool (pool identifies the pool, as in PoolGet).
+	PoolPut func(pool any, x any)
 	// Order may permute items (it must return a permutation of them).
 	Order func(site string, items []string) []string
 	// Actions splits the REST action table into batches that are registered in order.
@@ -47,7 +47,7 @@ type verifCtxPool struct {
 // Get a context from the pool.
 func (p *verifCtxPool) Get() any {
 	if h := VerifHooks.PoolGet; h != nil {
-		return h(p.New)
+		return h(p, p.New)
 	}
 	p.once.Do(func() { p.real.New = p.New })
 	return p.real.Get()
@@ -56,7 +56,7 @@ func (p *verifCtxPool) Get() any {
 // Put a context back.
 func (p *verifCtxPool) Put(x any) {
 	if h := VerifHooks.PoolPut; h != nil {
-		h(x)
+		h(p, x)
 		return
 	}
 	p.real.Put(x)
